@@ -306,7 +306,8 @@ def check_status_identity(ctx, num=3):
     for meth, want in (("transition", "self.pipeline.runtime_status().transition(self, {p})"), ("state", "self.pipeline.runtime_status().operator_states[self]")):
         f = P.fn(PL, f"Operator.{meth}")
         ctx.touch(f)
-        body = [s_ for s_ in f.node.body if not (isinstance(s_, ast.Expr) and isinstance(s_.value, ast.Constant))]
+        # the one statement of the method that does anything (statements without a call or an attribute store do not count)
+        body = [s_ for s_ in f.node.body if any(isinstance(x, (ast.Call, ast.Subscript)) or (isinstance(x, ast.Attribute) and isinstance(x.ctx, ast.Store)) for x in ast.walk(s_))]
         e = body[-1].value if body and isinstance(body[-1], (ast.Expr, ast.Return)) else None
         exp = want.format(p=f.params()[1]) if "{p}" in want else want
         ok = len(body) == 1 and e is not None and norm.U(e) == exp
